@@ -323,6 +323,24 @@ func (dm *DMap) putOnCluster(e *env) error {
 		return err
 	}
 
+	if e.putConfig.OnlyUpdateTTL {
+		// Expire only updates the TTL of an existing key. A missing or already expired key
+		// cannot be expired. The replicas receive the whole entry, so it has to carry
+		// the current value.
+		current, err := f.storage.Get(e.hkey)
+		if errors.Is(err, storage.ErrKeyNotFound) {
+			return ErrKeyNotFound
+		}
+		if err != nil {
+			return err
+		}
+		if isKeyExpired(current.TTL()) {
+			return ErrKeyNotFound
+		}
+		e.value = make([]byte, len(current.Value()))
+		copy(e.value, current.Value())
+	}
+
 	if dm.config != nil {
 		if dm.config.ttlDuration.Seconds() != 0 && e.timeout.Seconds() == 0 {
 			e.timeout = dm.config.ttlDuration
